@@ -228,6 +228,10 @@ enum AsPat {
     Single { form: AsForm, lo: u32, hi: u32 },
     /// probe: "^1_2$" -- a genuine (non single-form) regular expression
     Regex12,
+    /// "^$": matches the empty string only (an AS_PATH that is present and empty: locally originated routes)
+    RegexEmpty,
+    /// ".*": matches every string, the empty one included
+    RegexAny,
 }
 
 impl AsPat {
@@ -243,6 +247,8 @@ impl AsPat {
                 }
             }
             AsPat::Regex12 => "^1_2$".to_string(),
+            AsPat::RegexEmpty => "^$".to_string(),
+            AsPat::RegexAny => ".*".to_string(),
         }
     }
     fn class(&self) -> &'static str {
@@ -252,6 +258,8 @@ impl AsPat {
             AsPat::Single { form: AsForm::Origin, .. } => "origin",
             AsPat::Single { form: AsForm::Only, .. } => "only",
             AsPat::Regex12 => "regex(non-single-form)",
+            AsPat::RegexEmpty => "regex(empty-string)",
+            AsPat::RegexAny => "regex(any-string)",
         }
     }
 }
@@ -304,6 +312,17 @@ fn as_pat_readings(p: &AsPat, path: Option<&Segs>) -> BTreeSet<bool> {
                 AsForm::Only => segs.len() == 1 && segs[0].1.len() == 1 && inr(segs[0].1[0]),
             };
             out.insert(s);
+        }
+        AsPat::RegexEmpty | AsPat::RegexAny => {
+            // judged on an empty AS_PATH (string "") and on paths of non-empty AS_SEQUENCE
+            // segments (string "1 2 ..."); the string form of other paths is not pinned
+            let normal = segs.iter().all(|(t, m)| *t == SEG_SEQ && !m.is_empty());
+            if normal {
+                out.insert(matches!(p, AsPat::RegexAny) || segs.is_empty());
+            } else {
+                out.insert(true);
+                out.insert(false);
+            }
         }
         AsPat::Regex12 => {
             // "^1_2$": AS 1 immediately followed by AS 2 and nothing else.  Judged only on
@@ -1509,6 +1528,8 @@ fn a2_space(nseg: usize) -> A2Space {
     }
     let regex = pats.len();
     pats.push(AsPat::Regex12);
+    pats.push(AsPat::RegexEmpty);
+    pats.push(AsPat::RegexAny);
     let mut sets: Vec<Vec<usize>> = (0..pats.len()).map(|i| vec![i]).collect();
     for i in 0..8 {
         for j in i + 1..8 {
@@ -1516,6 +1537,8 @@ fn a2_space(nseg: usize) -> A2Space {
         }
     }
     sets.push(vec![regex, 5]); // "^1_2$" together with "_2$"
+    sets.push(vec![regex + 1, 0]); // "^$" together with "_1_"
+    sets.push(vec![regex + 1, regex + 2]); // "^$" together with ".*"
     // segments: every type x member lists of length 0..=2 over {1,2,3}
     let mut members: Vec<Vec<u32>> = vec![vec![]];
     for a in 1..=3u32 {
@@ -1690,7 +1713,7 @@ fn a2_run(rep: &mut Report, thorough: bool) -> u64 {
     let bad = a2_single_matrix(&sp);
     let dist = Distinct::new();
     rep.notes.push(format!(
-        "a2: {} patterns (8 single-AS forms, 8 range forms, 1 regex probe), {} sets x {{ANY,ALL,INVERT}} x {} AS_PATHs (<= {} segments, 4 types, 0..2 members of {{1,2,3}}, plus empty path and no attribute)",
+        "a2: {} patterns (8 single-AS forms, 8 range forms, 3 regex probes incl. two that match the empty string), {} sets x {{ANY,ALL,INVERT}} x {} AS_PATHs (<= {} segments, 4 types, 0..2 members of {{1,2,3}}, plus empty path and no attribute)",
         sp.pats.len(),
         sp.sets.len(),
         sp.paths.len(),
